@@ -111,6 +111,7 @@ def run(ctx):
     rep = framework.Report(ctx, LEVEL)
     r = ctx.rnd
     coloured = []
+    all_tokens = []
     npaste = 0
     for k in range(ctx.pick(300, 2500)):
         s = session_for(ctx, k)
@@ -144,6 +145,7 @@ def run(ctx):
         if k % 6 == 0:
             base = {'init': s['init'], 'events': [e for e in s['events'] if e['in']['e'] in ('msg', 'junk')][:15] + [{'in': {'e': 'eof'}}]}
             toks = coloured_tokens(raws, r, ctx.pick(4, 8))
+            all_tokens.extend(t for t in toks if ';' in t)
             npaste += len(toks)
             paste_back(ctx, rep, base, toks)
         if len(rep.samples) < 2 and raws:
@@ -163,6 +165,22 @@ def run(ctx):
     # real processes: --color vs --no-color
     tmp = tempfile.mkdtemp(prefix='c17-', dir=os.path.join(tlc.OUT, 'tmp'))
     try:
+        # coloured text typed at the real prompt (file mode): understood as the uncoloured text
+        plog = os.path.join(tmp, 'paste.log')
+        open(plog, 'w').write('[1000.000]  -> wl_display@1.get_registry(new id wl_registry@2)\n[1000.100] wl_registry@2.global(1, "wl_compositor", 4)\n'
+                              '[1000.200]  -> wl_registry@2.bind(1, "wl_compositor", 4, new id [unknown]@3)\n[1000.300]  -> wl_compositor@3.create_surface(new id wl_surface@4)\n')
+        typed = ['filter wl_registry.bind(\x1b[1;92m*\x1b[0m)', 'list \x1b[1;96mwl_registry\x1b[0m', 'matcher \x1b[1;94m.bind\x1b[0m', 'list \x1b[36m@2a\x1b[0m',
+                 'breakpoint \x1b[1;96mwl_compositor\x1b[0m\x1b[1;94m.create_surface\x1b[0m', '\x1b[93mlist\x1b[0m wl_surface ~ 1']
+        typed += ['filter ' + t for t in all_tokens[:ctx.pick(4, 12)]]
+        for text in typed:
+            res = []
+            for variant in (text, SGR.sub('', text)):
+                rc, out, err = c13.run_tool(['-C', '-l', plog], (variant + '\nlist ~ 3\nquit\n').encode('utf-8'))
+                res.append((rc, out, [l for l in err.split('\n') if l.startswith(('Error: ', 'Warning: '))]))
+            rep.case('process-paste:' + text)
+            if res[0] != res[1]:
+                rep.violation('process-paste-back-differs', 'typed at the prompt of the real process with colour codes, %r is not understood as without them: %r vs %r'
+                              % (text, (res[0][1] + ' '.join(res[0][2]))[-300:], (res[1][1] + ' '.join(res[1][2]))[-300:]), {'kind': 'process-paste', 'text': text})
         for k in range(ctx.pick(3, 12)):
             s = gen.SessionGen(ctx.seed * 31337 + k, nconn=(1, 2), nmsg=(10, 30), junk=0.2, core=None).session()
             text = '\n'.join(c13.stream_of(s, {'dialect': 'new'})) + '\n'
